@@ -128,6 +128,10 @@ class AbstractAst:
         lexer = self.antrlLexerType(input_stream)
         if not isinstance(lexer, Lexer):
             raise RTAMTException('{} is not ANTRL4 Lexer'.format(lexer.__class__.__name__))
+        if self.parserErrorListenerType != None:
+            # characters that start no token are an error, not something to skip silently
+            lexer.removeErrorListeners()
+            lexer.addErrorListener(self.parserErrorListenerType())
         stream = CommonTokenStream(lexer)
         parser = self.antrlParserType(stream)
         if not isinstance(parser, Parser):
